@@ -18,7 +18,7 @@ CONSTANTS MaxBuild, MaxPatchOps, MaxFiles
 
 VARIABLES phase, rfiles, sfiles, nops
 
-svars == <<files, ref, okm, phase, rfiles, sfiles, nops>>
+svars == <<files, ref, okm, fresh, touched, phase, rfiles, sfiles, nops>>
 
 StubInit == Init /\ phase = "build" /\ rfiles = <<>> /\ sfiles = <<>> /\ nops = 0
 
@@ -34,7 +34,7 @@ StartPatch ==
     /\ rfiles' = Append(files, EmptyContainer)
     /\ sfiles' = Append(StubOf(files), EmptyContainer)
     /\ nops' = 0
-    /\ UNCHANGED <<files, ref, okm>>
+    /\ UNCHANGED <<files, ref, okm, fresh, touched>>
 
 PatchOp ==
     /\ phase = "patch" /\ nops < MaxPatchOps
@@ -45,7 +45,7 @@ PatchOp ==
          /\ ref' = r.t
          /\ okm' = (wr.ok = r.ok /\ ws.ok = r.ok)
     /\ nops' = nops + 1
-    /\ UNCHANGED <<files, phase>>
+    /\ UNCHANGED <<files, phase, fresh, touched>>
 
 StubNext == Build \/ StartPatch \/ PatchOp
 StubSpec == StubInit /\ [][StubNext]_svars
